@@ -532,6 +532,9 @@ def run_pemform(case, agg):
         agg.ok(h8("c15p", case), f"ok:{form}", sample=case if form == "traditional-crlf" and kind == "p521" else None)
 
 
+RULE += ". Further stages: " + "convert-pem-forms - PKCS#8 / traditional EC PEM, CRLF, text around the armour, and the keys command's own pkcs8 / pkcs1 output fed to convert"
+
+
 def plan(tier):
     return [
         CaseStage("keys", lambda: keys_cases(tier), run_keys, rule="type x encoding x private format x public format x 3"),
